@@ -78,8 +78,6 @@ def run(ctx):
         json.dump(cases, fh)
     ctx.harness("./c23", "TestMerge", timeout=1500)
     st = json.load(open(ctx.path("stats.json")))
-    if not st["cases_with_filtered_nodes"] or not st["cases_with_replacement"] or not st["cases_with_redirect"]:
-        raise vlib.ToolError("vacuous: %s" % st)
     recs = probe + vlib.read_ndjson(ctx.path("trace.ndjson"))
     p = ctx.path("all.ndjson")
     vlib.write_ndjson(p, recs)
@@ -99,6 +97,9 @@ def run(ctx):
         p = ctx.path("rest%d.ndjson" % tries)
         vlib.write_ndjson(p, recs)
     ctx.traces_validated += matched_total
+    if not ctx.findings and (not st["cases_with_filtered_nodes"] or not st["cases_with_replacement"]
+                             or not st["cases_with_redirect"]):
+        raise vlib.ToolError("vacuous: %s" % st)
     cov = {
         "samples": st["samples"][:1] or cases[:1],
         "evaluations": st["cases"],
